@@ -400,6 +400,64 @@ def gen_td(rng, n, prefix="t"):
         ch = chunkings(rng, data)
         yield "TD %s%d ops=%s" % (prefix, i, ",".join(["W" + c.hex() for c in ch] + ["E"]))
 
+C03_EXTRA = [b"<select>", b"</select>", b"<template>", b"</template>", b"<frameset>", b"</frameset>", b"<option>", b"<input>", b"<keygen>", b"<table>", b"<tr>", b"<td>",
+    b"<TEXTAREA>", b"</TextArea>", b"<TITLE>", b"</title >", b"</title/>", b"<noscript>", b"</noscript>", b"<noembed>", b"</noembed>", b"<plaintext>",
+    b"<!DOCTYPE html PUBLIC \"-//W3C//DTD HTML 4.01//EN\" \"http://www.w3.org/TR/html4/strict.dtd\">", b"<!doctype html SYSTEM 'about:legacy-compat'>", b"<!DOCTYPE>", b"<!DOCTYPE html PUBLIC>",
+    b"<!doctype a b>", b"<!DOCTYPE html PUBLIC \"x\">", b"<!DOCTYPE html PUBLIC 'x' 'y' z>", b"<!--", b"-->", b"--!>", b"<!-->", b"<!--->", b"<!--<!-->", b"<!--<!--x-->", b"<!-- a--b -->", b"<!--a---->",
+    b"<a b=c d = 'e' f=\"g\"h i/j>", b"<a =x>", b"<a b==c>", b"<a b='>'>", b"<p/ >", b"<br/>", b"</p attr=x>", b"</ p>", b"</>", b"<?php ?>", b"<![CDATA[x]]>", b"<!x>", b"<1>", b"< p>", b"<a/b>",
+    b"<script>", b"</script>", b"<!--", b"<script", b"</script", b"</scriptx>", b"-->", b"<SCRIPT >", b"</SCRIPT\n>", b"<style>", b"</style>", b"</styl>", b"<xmp>", b"</xmp>", b"<iframe>", b"</iframe>"]
+def c03_soup(rng):
+    pool = [f for f in FRAGS if b"svg" not in f.lower() and b"math" not in f.lower() and b"\0" not in f and b"foreignObject" not in f and b"desc" not in f and b"annotation" not in f
+            and b"<mi>" not in f and b"</mi>" not in f and b"<g/>" not in f and b"<path" not in f and b"<font" not in f] + C03_EXTRA
+    return b"".join(rng.choice(pool) for _ in range(1 + rng.randrange(10)))
+def c03_island(rng, ns, depth=0):
+    """well-nested foreign content: explicitly closed elements, self-closing syntax, CDATA, integration points with HTML inside"""
+    out = b""
+    for _ in range(rng.randrange(1, 4)):
+        c = rng.randrange(14)
+        if c < 3: out += rng.choice([b"text", b"a &amp; b", b" ", b"x < y", b"1<2"]) if c else b"t"
+        elif c < 4: out += b"<![CDATA[" + rng.choice([b"x", b"<b>not a tag</b>", b"]] >", b""]) + b"]]>"
+        elif c < 5: out += b"<!--" + rng.choice([b"c", b""]) + b"-->"
+        elif c < 7: out += b"<" + rng.choice([b"g", b"path d=1", b"circle r='2'", b"mrow", b"mspace"]) + b"/>"
+        elif c < 10 and depth < 4:
+            t = rng.choice([b"g", b"a", b"text", b"defs"] if ns == "svg" else [b"mrow", b"mfrac", b"semantics", b"mstyle"])
+            out += b"<" + t + rng.choice([b"", b" id=x", b" CLASS='y'"]) + b">" + c03_island(rng, ns, depth + 1) + b"</" + t + b">"
+        elif c < 12 and depth < 4:
+            # integration points: HTML inside
+            if ns == "svg": t = rng.choice([b"foreignObject", b"desc", b"title"]); open_ = b"<" + t + b">"
+            else:
+                t = rng.choice([b"mi", b"mo", b"mn", b"ms", b"mtext", b"annotation-xml"])
+                open_ = b"<" + t + (rng.choice([b' encoding="text/html"', b" encoding='application/xhtml+xml'", b' ENCODING="TEXT/HTML"']) if t == b"annotation-xml" else b"") + b">"
+            inner = b""
+            for _ in range(rng.randrange(1, 4)):
+                k = rng.randrange(8)
+                if k < 2: inner += b"<b>bold</b>"
+                elif k < 3: inner += b"<style>a<b>{}</style>"
+                elif k < 4: inner += b"<title>x<y></title>" if ns != "svg" or t != b"title" else b"plain"
+                elif k < 5: inner += b"<p>para</p>"
+                elif k < 6: inner += b"<script>1<2</script>"
+                elif k < 7 and depth < 3: inner += b"<svg>" + c03_island(rng, "svg", depth + 2) + b"</svg>"
+                else: inner += b"words"
+            out += open_ + inner + b"</" + t + b">"
+            if ns != "svg" and rng.randrange(2):
+                # right after the end tag of an integration point: another integration point whose HTML content is text-mode sensitive
+                out += rng.choice([b"<mi><style>a<b>c</style></mi>", b"<mtext><title>a<b></title>t</mtext>", b"<annotation-xml encoding='text/html'><textarea><b></textarea></annotation-xml>",
+                                   b"<mo><xmp><i></xmp></mo>", b"<ms><script>1<2</script></ms>"])
+        elif c < 13: out += b"<" + rng.choice([b"style", b"script", b"title", b"textarea"] if ns == "svg" else [b"mi", b"mn"]) + b">" + rng.choice([b"x", b"<g/>", b"a<b"]) + b"</" + (b"x" if False else b"") + b">" if False else b""
+        else: out += b"<font>" + b"f" + b"</font>"
+    return out
+def gen_c03(rng, n, prefix="w"):
+    for i in range(n // 2 + 1):
+        if rng.randrange(5) < 3: data = c03_soup(rng)
+        else:
+            ns = rng.choice(["svg", "math"])
+            data = rng.choice([b"", b"<!DOCTYPE html>", b"<p>before"]) + b"<" + ns.encode() + rng.choice([b"", b" viewBox='0 0 1 1'"]) + b">" + c03_island(rng, "svg" if ns == "svg" else "mathml") + b"</" + ns.encode() + b">" + rng.choice([b"", b"<p>after</p>", b"<textarea><b></textarea>"])
+        ch = chunkings(rng, data)
+        ops = ",".join(["W" + c.hex() for c in ch] + ["E"])
+        seed = 100000 if rng.randrange(3) else rng.randrange(1, 900)       # capture everything, or a sparse capture policy
+        yield "L1 %s%d.s seed=%d strict=1 ops=%s" % (prefix, i, seed, ops)
+        yield "L1 %s%d.n seed=%d strict=0 ops=%s" % (prefix, i, seed, ops)
+
 def gen_l2(rng, n, profile, prefix):
     isz = int(open('/verif/build/itemsize.txt').read().strip()) if __import__('os').path.exists('/verif/build/itemsize.txt') else 104
     for i in range(n):
@@ -576,6 +634,8 @@ def main():
                 if " bail=" in l or " bh=1" in l or _re.search(r"(sb:|sf:|sr:|[~,]sx|[(+]rp:)", l): continue
                 print(l); k += 1
                 if k >= max(1, n * share // 10): break
+    elif fam == "c03":
+        for l in gen_c03(rng, n): print(l)
     elif fam == "enc":
         for l in gen_enc(rng, n): print(l)
     elif fam == "c04":
